@@ -27,6 +27,31 @@ def q(v, rtol=1e-9):
     return so.qvec(v, [None] * len(np.ravel(v)), rtol)
 
 
+def tame(rec, lim=1 << 26):
+    """TLC computes <w, A v> and <A^T w, v> in 32-bit integers: keep only records whose exact evaluation (emulated here
+    term by term, as Rat.tla does it) stays far below that; the others are counted, not judged"""
+    from fractions import Fraction as F
+
+    def dot_ok(a, x):
+        acc = F(0)
+        for p_, q_ in zip(reversed(a), reversed(x)):
+            if p_[1] == 0 or q_[1] == 0:
+                return True          # NaN marker: TLC rejects it without arithmetic
+            if abs(p_[0] * q_[0]) > lim or abs(p_[1] * q_[1]) > lim:
+                return False
+            t = F(p_[0], p_[1]) * F(q_[0], q_[1])
+            if abs(t.numerator * acc.denominator) > lim or abs(acc.numerator * t.denominator) > lim or \
+                    t.denominator * acc.denominator > lim:
+                return False
+            acc = acc + t
+        return True
+    for key in ('v', 'w', 'av', 'atw'):
+        for n_, d_ in rec[key]:
+            if d_ != 0 and (abs(n_) > 20000 or d_ > 1024):
+                return False
+    return dot_ok(rec['w'], rec['av']) and dot_ok(rec['atw'], rec['v'])
+
+
 def observe(seed):
     from openmdao.core.analysis_error import AnalysisError
     opts = OPTS
@@ -165,9 +190,13 @@ def observe(seed):
     except Exception as e:
         import traceback
         return {'exc': '%s: %s' % (type(e).__name__, e), 'tb': traceback.format_exc()[-1500:], 'md': md}
+    keep = [k for k, a in enumerate(adj) if tame(a)]
+    untamed = len(adj) - len(keep)
+    adj = [adj[k] for k in keep]
+    kinds = [kinds[k] for k in keep]
     case = so.case_record(md, ref, [], [], adj, jv)
     case['eqs'] = eqs
-    return {'case': case, 'md': md, 'kinds': kinds, 'eqkinds': eqkinds, 'seed': seed}
+    return {'case': case, 'md': md, 'kinds': kinds, 'eqkinds': eqkinds, 'seed': seed, 'untamed': untamed}
 
 
 def _worker(seeds):
@@ -213,6 +242,7 @@ def run(ctx):
     ctx.impl = nops
     ctx.evaluations = nops
     ctx.extra['models'] = len(cases)
+    ctx.extra['adjoint_records_beyond_32bit_arithmetic_not_judged'] = sum(r.get('untamed', 0) for r in cases)
     for r in cases[:2]:
         ctx.sample({'seed': r['seed'], 'operators': r['kinds'], 'first': r['case']['adj'][0] if r['case']['adj'] else None})
     ctx.rule = ('generated models; integer seed vectors in -3..3; operators: compute_jacvec_product fwd/rev (exact J v and J^T w and '
